@@ -121,6 +121,13 @@ reg('C20', 'harness.twin', design_ref='6/C20',
     outside='persistent (file/dir/sql) archives staying shared after the round trip; keymaps other than the default/raw ones',
     stubs=HIST_STUBS + ['proxies survive real dill through __reduce__ + an in-process registry (the clone holds the same symbolic variables)'],
     assumptions=TWIN_ASSUME, expect_labels=['C20:equal-after-roundtrip', 'C20:continuation', 'C20:independent', 'C20:configuration'])
+reg('C19', 'harness.validate', design_ref='6/C19',
+    bounds={'quick': '23 signature shapes as plain functions (+ bound methods and callable instances for the simpler shapes) and up to 4 functools.partial variants each (fixing 1-3 positionals and/or one keyword); every call with 0-5 positional arguments and every subset of keywords from the pool {parameter names, keyword-only names, p, q}',
+            'thorough': 'all 336 shapes x {function, bound method, callable instance} x all partial variants'},
+    outside='more than 5 positional arguments; keyword names outside the pool (assumed equivalent to p/q because the code only tests names for equality with parameter names - an assumption, not something the solver shows); builtins and partials of partials',
+    stubs=[], assumptions=['keyword names are concrete (a symbolic name would be unsound here, DESIGN.md 6/C19)', 'argument values are atoms: the verdict must not depend on them',
+                            'every input is a finite structural choice, so one path is close to one concrete call form; the solver contributes the closure certificate and the counterexample'],
+    expect_labels=['C19:agree', 'C19:validate', 'C19:never-called'])
 
 _T = 'bounded symbolic execution of the real code (ksym proxies on CPython), branch and obligation queries decided by z3, closed path tree, concrete replay of counterexamples'
 _N = 'trusted: CPython, z3 5.1, the ksym proxies (constant hash + solver-decided equality) and the listed stubs; atoms stand for arbitrary hashable non-fast-type objects; bounds as in evidence.coverage.bounds; no claim outside them'
@@ -141,9 +148,10 @@ TEXT = {
     'C16': {'level': 'within the history bounds, a raising call propagates the same exception object after one evaluation and leaves memory, archive and statistics unchanged; every later observable equals that of a twin that never saw the call; safe decorators return F(args) for every hostile witness under every keymap', 'note': _N, 'technique': _T},
     'C18': {'level': 'within the history bounds, key()/lookup() agree with what calls store, evaluate nothing, change nothing, and a twin that was never probed is indistinguishable afterwards', 'note': _N, 'technique': _T},
     'C20': {'level': 'within the bounds, the clone obtained through the real dill equals the original (contents, statistics, configuration), is independent in memory, and every later observable equals that of a never-pickled twin', 'note': _N, 'technique': _T},
+    'C19': {'level': 'for every program in the family and every call form within the bound, isvalid/validate agree with the outcome of binding the same call on a stub with the same signature, and the function is never called (closed enumeration of a finite structural space through symbolic selectors)', 'note': _N, 'technique': _T},
     'C15': {'level': 'within the history bounds (calls interleaved with dump/load/clear/toggle), info() equals ground-truth counters derived from before/after snapshots of memory and archive', 'note': _N, 'technique': _T},
 }
 NOT_APPLICABLE = [
     {'property_id': p, 'reason': 'check not built yet in this session (planned in DESIGN.md §6); nothing is claimed for it so far'}
-    for p in [ 'C13', 'C14', 'C19']
+    for p in ['C13', 'C14']
 ]
